@@ -18,7 +18,7 @@ def interrogate_filter(path):
     """
     # Ask for the filter attributes of file on path (-z = null-terminated fields)
     try:
-        spec = check_output(['git', 'check-attr', '-z', 'filter', path])
+        spec = check_output(['git', 'check-attr', '-z', 'filter', '--', path])
     except CalledProcessError:
         return None
     try:
@@ -75,11 +75,16 @@ def apply_possible_filter(git_path, path=None):
 
     # Apply filter and pipe to a string buffer
     with io.open(path, 'r', encoding="utf8") as f:
-        output = check_output(
-            filter_cmd,
-            stdin=f,
-            stderr=STDOUT, shell=True
-        ).decode('utf8', 'replace')
+        try:
+            output = check_output(
+                filter_cmd,
+                stdin=f,
+                stderr=STDOUT, shell=True
+            ).decode('utf8', 'replace')
+        except CalledProcessError:
+            # Like git does for a filter that is not required: use the
+            # file as it is
+            return path
     buffer = NamedStringIO()
     buffer.name = path
     buffer.write(output)
